@@ -21,4 +21,28 @@ PROPS = {
         "not_modelled": "sqlparser identifier parsing; scoping of CTE names in query_names.rs (query stream only)",
         "assumptions": ["BTreeMap keys are distinct (NoDup) — the iteration order is proved irrelevant"],
     },
+    "C13": {
+        "generate": "GEN-RULES",
+        "model_targets": ["QV/Corr/Rules.vo"],
+        "oracle": "the real selector's derivations, scores and entry-point outcome are compared with the model; the model's best derivation must rewrite to what the entry point returned",
+        "trusted": [
+            "translator: harness/src/rules.rs::generate (probes RewritingRulesSetter, writes QV/Generated/RuleTable.v)",
+            "correspondence: harness/src/rules.rs and QV/Corr/Rules.v (trees exported from RelationWithRewritingRules, signatures of rewritten relations modulo generated names)",
+            "modelled, not verified: RewritingRulesEliminator, SelectRewritingRuleVisitor/RewritingRulesSelector, Score, max_by in rewriting/mod.rs; visitor.rs memoisation modelled as a tree",
+        ],
+        "not_modelled": "panics inside Rewriter while every candidate is rewritten (C18)",
+        "assumptions": ["the visited functions are pure, so DAG memoisation equals tree recursion"],
+    },
+    "C02": {
+        "generate": "GEN-RULES",
+        "model_targets": ["QV/Corr/Rules.vo"],
+        "oracle": "for every acceptable derivation the real selector returns: independent label-level lineage on the real derivation object, and a walk of the rewritten IR (a protected table leaf must lie below a noise-adding map)",
+        "trusted": [
+            "translator: harness/src/rules.rs::generate (RuleTable.v regenerated from RewritingRulesSetter; C02_table_ok re-proved on it)",
+            "correspondence: harness/src/rules.rs and QV/Corr/Rules.v",
+            "modelled, not verified: which IR the Rewriter builds for each rule (checked by the IR walk on sampled queries only)",
+        ],
+        "not_modelled": "noise magnitude (C01/C03), unit locality (C05)",
+        "assumptions": ["a Reduce with rule [PUP] -> DP is the only noise-adding step; a table labelled SD is replaced by its synthetic counterpart"],
+    },
 }
